@@ -95,7 +95,8 @@ PROPS["C16"] = dict(
     assumptions=PROG_ASSUMPTIONS,
     jobs=[dict(name="c16", run="^TestPropC16$", kind="rapid", shards=16, checks={"quick": 100000, "thorough": 3000000},
                guard={"quick": 900, "thorough": 7200})],
-    min_class_fraction={"attribute_read_inside_closure_or_func": 0.2, "attribute_names_collide_with_locals": 0.1},
+    min_class_fraction={"attribute_read_inside_closure_or_func": 0.2, "attribute_names_collide_with_locals": 0.1,
+                        "attribute_holds_a_closure": 0.01, "map_behind_a_wrapper_value": 0.15},
 )
 
 PROPS["C10"] = dict(
@@ -530,3 +531,7 @@ _amend("C11", "Oracle: every goroutine's outcome equals the reference interprete
        "createInterpolation, linearReg, a constant iirApply filter - folded into the function and shared by all evaluations) from 2..12 goroutines on 1..4 "
        "different irregularly sampled signals; its oracle is the function itself: every concurrent outcome equals an isolated evaluation of a freshly "
        "generated function with the same argument. Oracle: every goroutine's outcome equals the reference interpreter's outcome for its own arguments;")
+_amend("C16", "representations, optionally with decoy keys",
+       "representations, in half of the cases the map the implementation itself builds from a literal, bare or behind the wrapper "
+       "values export.Format / export.Link / both, which are maps through ToMap; in these cases attributes may hold closures int -> int "
+       "that the program calls, a quarter of them with attribute names get, size, isAvail; optionally with decoy keys")
